@@ -246,6 +246,8 @@ func runC19(c *core.Ctx) {
 	c.Doc("list-new-order", 1, "list.New prepends seq[i] for i = len-1 .. 0")
 	c.Doc("fold", 1, "Fold: x := Empty(); while !IsEmpty(s) { x = Combine(x, Head(s)); s = Tail(s) }")
 
+	newLenProved = nil
+	listNewOrder(c)
 	for _, impl := range []string{"internal/seq/list", "internal/seq/slice"} {
 		sh := pkgShort(impl)
 		ops := map[string]*ssa.Function{}
@@ -450,7 +452,6 @@ func runC19(c *core.Ctx) {
 		// Length(New(xs...)) = len(xs)
 		newLen(c, sh, ops)
 	}
-	listNewOrder(c)
 	foldRule(c)
 }
 
@@ -500,12 +501,19 @@ func newLen(c *core.Ctx, sh string, ops map[string]*ssa.Function) {
 				continue
 			}
 		}
+		if newLenProved != nil && ir.Same(got, newLenProved) {
+			continue // proved by induction over the loop in list-new-order
+		}
 		if !linEqual(got, &ir.Term{Op: "len", Args: []*ir.Term{xs}}) {
 			ok, why = false, fmt.Sprintf("Length(New(xs...)) normalises to %s, expected len(xs)", short(got))
 		}
 	}
 	c.Check(ok && n > 0, "law", name, fn.Pos(), "len(xs)", "%s", why)
 }
+
+// newLenProved: set by listNewOrder when list.New returns a loop-carried descriptor whose counting field was proved
+// inductively to equal len(xs) at the loop's exit: the term field[<f>](<descriptor symbol>) stands for len(xs).
+var newLenProved *ir.Term
 
 func listNewOrder(c *core.Ctx) {
 	fn := c.W.Method("internal/seq/list", "Trait", "New")
@@ -539,6 +547,8 @@ func listNewOrder(c *core.Ctx) {
 	ok := true
 	why := ""
 	var jTerm *ir.Term // the index of the element prepended in an iteration, as a term over the loop counter
+	var descPhi *ssa.Phi // the loop-carried descriptor when New builds its result by repeated push
+	descList, descLen := "", ""
 	var accNow func(p *ir.Path) *ir.Term // the accumulated list as seen at the start of a path from h
 	nIter := 0
 	for _, p := range an.Segs[h] {
@@ -592,6 +602,31 @@ func listNewOrder(c *core.Ctx) {
 			addr := vTail.Args[0]
 			next = p.End.MemAt(addr)
 			accNow = func(q *ir.Path) *ir.Term { return an.Start[h].MemAt(addr) }
+		case vTail.Op == "field" && len(vTail.Args) == 1 && vTail.Args[0].Op == "phi":
+			// the descriptor itself is loop-carried (s = s.push(x)): its list field is the accumulated list and its
+			// other (integer) field counts the pushes
+			if phi, isPhi := vTail.Args[0].Src.(*ssa.Phi); isPhi && phi.Block() == h {
+				out := p.PhiOut[phi]
+				if out != nil && out.Op == "alloc" {
+					out = p.End.MemAt(out)
+				}
+				next = ir.FieldOf(out, vTail.Aux)
+				ph, lf := phi, vTail.Aux
+				accNow = func(q *ir.Path) *ir.Term { return ir.FieldOf(an.Start[h].Reg(ph), lf) }
+				descPhi, descList = phi, lf
+				// the counting field goes up by one per push
+				if out != nil && out.Op == "lit" {
+					for _, kv := range ir.LitFields(out) {
+						if kv.Aux == lf {
+							continue
+						}
+						descLen = kv.Aux
+						if !linEqual(kv.Args[0], &ir.Term{Op: "bin", Aux: "+", Args: []*ir.Term{ir.FieldOf(an.Start[h].Reg(ph), kv.Aux), ir.Const("1")}}) {
+							ok, why = false, "the length kept in the descriptor does not grow by one per element"
+						}
+					}
+				}
+			}
 		}
 		if next == nil || !ir.Same(next, cell) {
 			ok, why = false, "the new cell must point to the list built so far and become the new head of it; found tail = "+short(vTail)+", list' = "+short(next)
@@ -633,6 +668,27 @@ func listNewOrder(c *core.Ctx) {
 			if jTerm == nil {
 				continue
 			}
+			if descPhi != nil {
+				// the descriptor starts empty: no list, length 0 (with J = len-1 at the start and J going down by
+				// one while the length goes up by one, length + J + 1 = len(xs) throughout and the loop ends at J = -1)
+				d0 := p.PhiOut[descPhi]
+				if d0 != nil && d0.Op == "alloc" {
+					d0 = p.End.MemAt(d0)
+				}
+				l0, n0 := ir.FieldOf(d0, descList), ir.FieldOf(d0, descLen)
+				zeroLike := func(t *ir.Term) bool {
+					if t == nil {
+						return false
+					}
+					if k, isK := t.IntConst(); isK && k == 0 {
+						return true
+					}
+					return t.IsNil() || t.Op == "const" && strings.HasPrefix(t.Aux, "zero")
+				}
+				if d0 == nil || !zeroLike(l0) || !zeroLike(n0) {
+					ok, why = false, "the descriptor does not start as the empty sequence: "+short(d0)
+				}
+			}
 			first := substTerm(jTerm, iSym, p.PhiOut[idx])
 			want := &ir.Term{Op: "bin", Aux: "-", Args: []*ir.Term{lenXs, ir.Const("1")}}
 			if !linEqual(first, want) {
@@ -655,6 +711,10 @@ func listNewOrder(c *core.Ctx) {
 			r = p.End.MemAt(r)
 		}
 		hasLen, hasList := false, false
+		if descPhi != nil && ir.Same(r, an.Start[h].Reg(descPhi)) && descLen != "" {
+			// the loop-carried descriptor is returned as it is: its fields were proved inductively above
+			hasLen, hasList = true, true
+		}
 		if r != nil && r.Op == "lit" && accNow != nil {
 			for _, kv := range ir.LitFields(r) {
 				if linEqual(kv.Args[0], lenXs) {
@@ -668,6 +728,9 @@ func listNewOrder(c *core.Ctx) {
 		if !hasLen || !hasList {
 			ok, why = false, "the result is not {length: len(xs), list: the list built}: "+short(r)
 		}
+	}
+	if ok && descPhi != nil && descLen != "" {
+		newLenProved = ir.FieldOf(an.Start[h].Reg(descPhi), descLen)
 	}
 	c.Check(ok, "list-new-order", name, fn.Pos(), "prepend xs[len-1] .. xs[0] in this order", "%s", why)
 }
@@ -701,27 +764,53 @@ func foldRule(c *core.Ctx) {
 		return
 	}
 	h := an.Headers[0]
-	var acc, cur *ssa.Phi
-	for _, in := range h.Instrs {
-		if phi, ok := in.(*ssa.Phi); ok {
-			if types.Identical(phi.Type(), fn.Params[2].Type()) {
-				cur = phi
-			} else {
-				acc = phi
+	// accumulator and cursor: loop-carried registers, or cells of a state object (helpers done()/next() inlined):
+	// found as the first argument of Combine and the argument of IsEmpty
+	quantityOf := func(t *ir.Term) (Quantity, bool) {
+		if t == nil {
+			return Quantity{}, false
+		}
+		if t.Op == "phi" {
+			if phi, isPhi := t.Src.(*ssa.Phi); isPhi && phi.Block() == h {
+				return PhiQuantity(an, h, phi, nil), true
+			}
+		}
+		if t.Op == "load" && len(t.Args) == 1 && cellAddr(t.Args[0]) {
+			return CellQuantity(an, t.Args[0]), true
+		}
+		return Quantity{}, false
+	}
+	var accQ, curQ Quantity
+	haveAcc, haveCur := false, false
+	for _, p := range an.Segs[h] {
+		for _, st := range p.Events(ir.KCall) {
+			if st.Method == nil {
+				continue
+			}
+			switch st.Method.Name() {
+			case "IsEmpty":
+				if q, isQ := quantityOf(st.A[1]); isQ && !haveCur {
+					curQ, haveCur = q, true
+				}
+			case "Combine":
+				if q, isQ := quantityOf(st.A[1]); isQ && !haveAcc {
+					accQ, haveAcc = q, true
+				}
 			}
 		}
 	}
-	ok := acc != nil && cur != nil
+	ok := haveAcc && haveCur
 	why := "no accumulator / cursor"
 	if ok {
-		x, s := an.Start[h].Reg(acc), an.Start[h].Reg(cur)
 		for _, p := range an.Segs[nil] {
-			m, _, args, isC := callParts(p.PhiOut[acc])
-			if !(isC && m == "Empty" && paramOf(args[0], fn, 1)) || !paramOf(p.PhiOut[cur], fn, 2) {
-				ok, why = false, "the fold must start from m.Empty() and the sequence argument; found x = "+short(p.PhiOut[acc])
+			x0, s0 := accQ.ValueAt(p, len(p.Steps)), curQ.ValueAt(p, len(p.Steps))
+			m, _, args, isC := callParts(x0)
+			if !(isC && m == "Empty" && paramOf(args[0], fn, 1)) || !paramOf(s0, fn, 2) {
+				ok, why = false, "the fold must start from m.Empty() and the sequence argument; found x = "+short(x0)
 			}
 		}
 		for _, p := range an.Segs[h] {
+			x, s := accQ.StartSym(p), curQ.StartSym(p)
 			var isEmpty, head, tail, comb *ir.Step
 			for _, st := range p.Events(ir.KCall) {
 				if st.Method == nil {
@@ -751,7 +840,7 @@ func foldRule(c *core.Ctx) {
 				good := p.To == h && head != nil && tail != nil && comb != nil && len(calls(p)) == 4 &&
 					ir.Same(head.A[1], s) && ir.Same(tail.A[1], s) &&
 					paramOf(comb.A[0], fn, 1) && ir.Same(comb.A[1], x) && ir.Same(comb.A[2], head.R) &&
-					ir.Same(p.PhiOut[acc], comb.R) && ir.Same(p.PhiOut[cur], tail.R)
+					ir.Same(accQ.ValueAt(p, len(p.Steps)), comb.R) && ir.Same(curQ.ValueAt(p, len(p.Steps)), tail.R)
 				if !good {
 					ok, why = false, "each iteration must set x = Combine(x, Head(s)) with the accumulator first and s = Tail(s)"
 					if comb != nil {
